@@ -209,7 +209,7 @@ fn run(cfg: &RunCfg) -> Report {
                 for via in 0..2u8 {
                     let mut c = Call::random(Form::RoutingUpdate, &mut rng, true, 0);
                     c.p[0] = via;
-                    c.blob = rng.bytes(4 * n);
+                    c.blob = crate::catalog::routing_entries(&mut rng, n);
                     check(&c, rng.below(300) as usize, rng.next(), &mut rep);
                 }
             }
